@@ -478,13 +478,14 @@ impl Sys {
                     // reference still routes to (incl. removals not yet seen by a poll) occupy slots
                     let occupying = (0..i).filter(|j| self.live(*j)).count();
                     if class == "mux:send-refused:busy" && occupying < self.cfg.max_active as usize {
-                        return Err(StepErr::Finding(Finding {
-                            key: "stream-removed-request-still-occupies-slot".into(),
-                            what: format!(
-                                "request {i} was refused with Busy although only {occupying} request(s) are pending (max_active_requests={})",
-                                self.cfg.max_active
-                            ),
-                        }));
+                        // The statement does not speak about back-pressure: a multiplexer that
+                        // frees the slot of a cancelled / timed-out request lazily still routes
+                        // every response correctly. Logged as an observation, never judged
+                        // (lead review: the builder's first version reported this as
+                        // `stream-removed-request-still-occupies-slot`).
+                        if let Some(l) = l.as_deref_mut() {
+                            l.outcome("obs:mux-busy-although-a-removed-request-could-free-a-slot");
+                        }
                     }
                     terminated = true;
                     rx = None;
